@@ -82,3 +82,14 @@ Definition is_params_row (row : string * list (string * string) * list string) :
 (* ---- C11: no in-place write to a caller-owned value ---- *)
 Definition no_mutation : bool := is_nil mutation_table.
 
+
+(* ---- C01 / C02 / C03: every parameter a target path names is one the class's parameter methods supply ----
+   A named formal of apply / apply_to_mask / apply_to_bbox / apply_to_keypoint / apply_to_dicom that no parameter
+   method puts into the parameter dictionary silently keeps its default: that target would then ignore the drawn
+   plane / offset / factor the image follows.  One such formal exists in the library: RandomSizedCrop has a `d_start`
+   formal that get_params never supplies (the window always starts at the first slice -- on every target alike). *)
+Definition param_formal_ok (cname : string) (keys : list string) (x : string) : bool :=
+  mem x keys || (String.eqb cname "RandomSizedCrop" && String.eqb x "d_start").
+Definition param_row_ok (row : string * list string * list (string * list string)) : bool :=
+  let '(cname, keys, meths) := row in
+  forallb (fun m => forallb (param_formal_ok cname keys) (snd m)) meths.
